@@ -1,8 +1,8 @@
 package memsyschk
 
 import (
-	"fmt"
 	"encoding/json"
+	"fmt"
 	"os"
 	"testing"
 
